@@ -2,7 +2,7 @@ SPECIFICATION Spec
 CONSTANTS
   Circuits = {"small", "mid", "edge"}
   BelowSwitch = {"small"}
-  AllPools = {1, 2, 3, 4, 5, 6, 7, 8, 9, 10, 11, 12, 13, 14, 15, 16, 17, 32}
+  AllPools = {1, 2, 3, 4, 5, 6, 7, 8, 9, 10, 11, 12, 13, 14, 15, 16, 17, 32, 33}
   SmallPools = {1, 3, 4, 32}
   FreshPools = {0, 1, 4, 17}
   FreshProcs = 2
